@@ -2,7 +2,7 @@
     purge of the staged object, unlock - what each keeps and what it establishes. *)
 From Coq Require Import List NArith Ascii Bool Arith Lia.
 From Rocfl Require Import Base.Bytes Model.FsOps Model.FsTree Model.Commit
-  Proofs.FsTreeFacts Proofs.CommitFacts Proofs.CommitLogic Proofs.CommitSteps.
+  Proofs.FsTreeFacts Proofs.CommitFacts Proofs.CommitLogic Proofs.CommitSteps Proofs.CommitPreserve.
 Import ListNotations.
 
 (** * paths *)
@@ -949,7 +949,7 @@ Section Commit.
     Lemma H0_rollback (Q : unit -> tree -> Prop) :
       H0 RBpre
          (attempt (write_file pinv oinv ;; write_file pside osd) ;; attempt (step (SRename dest src)) ;; throw EGeneral)
-         Q (fun _ t => forall x, lookup t x = lookup t1 x).
+         Q (fun e t => is_os e = false /\ forall x, lookup t x = lookup t1 x).
     Proof.
       destruct (src_dest_disjoint h) as [D1 D2]. fold src dest in D1, D2.
       eapply H0_attempt_drop with (Q1 := RB2) (E1 := fun _ _ => False); [| intros e t [] |].
@@ -963,7 +963,7 @@ Section Commit.
             -- intros x N1 N2. rewrite !lookup_insert_neq by congruence. now apply R1.
             -- rewrite !lookup_insert_neq by (apply not_eq_sym, pinv_pside). exact Ri.
             -- apply lookup_insert_eq.
-      - eapply H0_attempt_drop with (Q1 := fun t => forall x, lookup t x = lookup t1 x) (E1 := fun _ _ => False); [| intros e t [] | apply H0_throw; auto].
+      - eapply H0_attempt_drop with (Q1 := fun t => forall x, lookup t x = lookup t1 x) (E1 := fun _ _ => False); [| intros e t [] | apply H0_throw; intros t X; split; [reflexivity | exact X]].
         apply H0_step. intros t (R1 & R2 & R3). cbn [apply_step].
         assert (Hd : lookup t dest = Some Dir).
         { rewrite R1; [| rewrite <- (app_nil_r dest); apply dest_sub_neq_pinv | rewrite <- (app_nil_r dest); apply dest_sub_neq_pside].
@@ -1000,11 +1000,11 @@ Section Commit.
         or a kill in one of six states *)
     Lemma H_write_new_version :
       H (fun t => t = t1) (write_new_version c i) (fun _ t => t = s5)
-        (fun _ t => forall x, lookup t x = lookup t1 x) KV.
+        (fun e t => is_os e = false /\ forall x, lookup t x = lookup t1 x) KV.
     Proof.
       unfold write_new_version. rewrite inv_is_new_false. fold So Mo. change (head_of i) with h. fold src dest pinv pside.
-      eapply H_andthen with (Q1 := fun t => t = t1); [apply H_ensure_open; intros t ->; auto|].
-      eapply H_andthen with (Q1 := fun t => t = t1); [apply H_ensure_open; intros t ->; auto|].
+      eapply H_andthen with (Q1 := fun t => t = t1); [apply H_ensure_open; intros t ->; split; [reflexivity | auto]|].
+      eapply H_andthen with (Q1 := fun t => t = t1); [apply H_ensure_open; intros t ->; split; [reflexivity | auto]|].
       eapply H_bind with (Q1 := fun r t => r = mkInv k0 vs0 spec0 man0 dups0 /\ t = t1).
       { unfold get_inventory. apply H_get_tree. intros ? ->.
         assert (EX : exists_at t1 Mo = true).
@@ -1025,7 +1025,7 @@ Section Commit.
       rewrite R1, R2.
       eapply H_andthen with (Q1 := fun t => t = s1).
       { destruct (src_dest_disjoint h) as [D1 D2]. fold src dest in D1, D2.
-        apply (H_step_eq _ t1 s1); [| reflexivity | reflexivity | cbn; auto].
+        apply (H_step_eq _ t1 s1); [| reflexivity | split; reflexivity | cbn; auto].
         cbn. apply fs_rename_fresh; auto.
         - apply snoc_ne.
         - apply snoc_ne.
@@ -1038,4 +1038,295 @@ Section Commit.
       - intros e O. apply H_false_pre. intros t [X _]. congruence.
       - intros e O. eapply H0_conseq; [apply (H0_rollback (fun _ t => t = s5)) | | auto | auto]. intros t [_ R]. exact R.
     Qed.
+  
+    (** *** the six states a kill can leave: the old object, four states the validator rejects, the new object *)
+    Hypothesis Valid0 : obj_validb c t0 Mo = true.
+    Hypothesis Hnotin : ~ In h vs0.
+    Hypothesis Knew : k0 <> c_newk c.
+
+    Lemma read_pinv0 : read_file t0 pinv = Some oinv.
+    Proof. apply read_file_lookup. exact MInv. Qed.
+
+    Lemma valid0_parts :
+      osd = CSide k0 /\ forallb (fun v => is_dir t0 (Mo ++ [v])) vs0 = true.
+    Proof.
+      pose proof Valid0 as V. unfold obj_validb in V. fold pinv in V. rewrite read_pinv0 in V. unfold oinv in V.
+      rewrite (read_file_lookup _ _ _ _ MSide) in V.
+      repeat (apply andb_true_iff in V as [V ?]).
+      destruct osd; try discriminate. apply N.eqb_eq in V. subst. auto.
+    Qed.
+
+    Lemma vdir0 v : In v vs0 -> lookup t0 (Mo ++ [v]) = Some Dir.
+    Proof.
+      intros I. destruct valid0_parts as [_ F]. rewrite forallb_forall in F. specialize (F v I).
+      apply is_dir_inv in F as [F|F]; [now apply snoc_ne in F | exact F].
+    Qed.
+
+    Lemma v_neq_special v : In v vs0 -> v <> h /\ v <> c_inv c /\ v <> c_side c.
+    Proof.
+      intros I. pose proof (vdir0 v I) as D. repeat split; intros ->.
+      - contradiction.
+      - rewrite MInv in D. discriminate.
+      - rewrite MSide in D. discriminate.
+    Qed.
+
+    (** lookups at and below an old version directory are untouched in every state *)
+    Lemma s1_old_version v x : In v vs0 -> under (Mo ++ [v]) x = true -> lookup s1 x = lookup t0 x.
+    Proof.
+      intros I U. destruct (v_neq_special v I) as (N1 & _ & _).
+      apply under_iff in U as [sfx ->]. rewrite <- app_assoc. cbn [app].
+      rewrite s1_lookup, (Mo_sub_not_under_dest v sfx N1), Mo_sub_not_under_src. apply t1_main, under_app.
+    Qed.
+
+    Lemma ins_old_version p n t v x :
+      (p = pinv \/ p = pside) -> In v vs0 -> under (Mo ++ [v]) x = true -> lookup (insert p n t) x = lookup t x.
+    Proof.
+      intros Hp I U. apply lookup_insert_neq. destruct (v_neq_special v I) as (_ & N2 & N3).
+      apply under_iff in U as [sfx ->]. rewrite <- app_assoc. cbn [app].
+      destruct Hp as [-> | ->]; unfold pinv, pside; intros E; apply app_inv_head in E; injection E as E _; congruence.
+    Qed.
+
+    Lemma KV_versions_intact t : KV t -> versions_intact c vs0 t0 t.
+    Proof.
+      intros K v I x U. fold Mo in U.
+      assert (S1 := s1_old_version v x I U).
+      unfold KV in K. cbn in K. destruct K as [<- | [<- | [<- | [<- | [<- | [<- | []]]]]]].
+      - apply t1_main. eapply under_trans; [apply under_app | exact U].
+      - exact S1.
+      - unfold s2. rewrite (ins_old_version pinv _ _ v x); auto.
+      - unfold s3, s2. rewrite !(ins_old_version pinv _ _ v x); auto.
+      - unfold s4, s3, s2. rewrite (ins_old_version pside _ _ v x), !(ins_old_version pinv _ _ v x); auto.
+      - unfold s5, s4, s3, s2. rewrite !(ins_old_version pside _ _ v x), !(ins_old_version pinv _ _ v x); auto.
+    Qed.
+
+    (** the content files are in the staged object (before the rename) or in the object (after it) *)
+    Lemma s1_content d : In d (i_man i) -> lookup s1 (Mo ++ d) = lookup t0 (So ++ d).
+    Proof.
+      intros I. pose proof (Base_CS_S t1 (JP_Base _ _ J1) d I) as C.
+      apply man_i in I as [I _]. destruct (man0_shape d I) as [rest [_ ->]].
+      change (Mo ++ h :: c_cdir c :: rest) with (Mo ++ [h] ++ c_cdir c :: rest). rewrite app_assoc. fold dest.
+      rewrite s1_dest_sub. unfold src. rewrite <- app_assoc. exact C.
+    Qed.
+
+    Lemma ins_content p n t d : (p = pinv \/ p = pside) -> In d (i_man i) -> lookup (insert p n t) (Mo ++ d) = lookup t (Mo ++ d).
+    Proof.
+      intros Hp I. apply lookup_insert_neq. apply man_i in I as [I _]. destruct (man0_shape d I) as [rest [Nr ->]].
+      destruct Hp as [-> | ->]; unfold pinv, pside; intros E; apply app_inv_head in E; injection E as E1 E2; destruct rest; [contradiction | discriminate | contradiction | discriminate].
+    Qed.
+
+    Lemma KV_content t : KV t -> CS_S t \/ CS_M t.
+    Proof.
+      intros K. unfold KV in K. cbn in K. destruct K as [<- | [<- | [<- | [<- | [<- | [<- | []]]]]]].
+      - left. apply (Base_CS_S t1 (JP_Base _ _ J1)).
+      - right. intros d I. now apply s1_content.
+      - right. intros d I. unfold s2. rewrite ins_content; auto. now apply s1_content.
+      - right. intros d I. unfold s3, s2. rewrite !ins_content; auto. now apply s1_content.
+      - right. intros d I. unfold s4, s3, s2. rewrite !ins_content; auto. now apply s1_content.
+      - right. intros d I. unfold s5, s4, s3, s2. rewrite !ins_content; auto. now apply s1_content.
+    Qed.
+
+    (** the validator rejects the four states in between *)
+    Lemma read_pinv t cnt : lookup t pinv = Some (File cnt) -> read_file t pinv = Some cnt.
+    Proof. apply read_file_lookup. Qed.
+    Lemma read_pside t cnt : lookup t pside = Some (File cnt) -> read_file t pside = Some cnt.
+    Proof. apply read_file_lookup. Qed.
+
+    Lemma validb_unfold t :
+      obj_validb c t Mo =
+      match read_file t pinv with
+      | Some (CInv k vs spec man dups) =>
+          match read_file t pside with Some (CSide k') => N.eqb k k' | _ => false end
+          && match read_file t (Mo ++ [spec]) with Some (CDecl s) => seg_eqb s spec | _ => false end
+          && forallb (fun e => let n := last (fst e) [] in
+                               match snd e with
+                               | File _ => seg_eqb n (c_inv c) || seg_eqb n (c_side c) || seg_eqb n spec
+                               | Dir => existsb (seg_eqb n) vs
+                               end) (children t Mo)
+          && forallb (fun v => is_dir t (Mo ++ [v])) vs
+          && match vs with
+             | [] => false
+             | _ => onode_eqb (lookup t (Mo ++ [last vs []; c_inv c])) (Some (File (CInv k vs spec man dups)))
+                    && onode_eqb (lookup t (Mo ++ [last vs []; c_side c])) (Some (File (CSide k)))
+             end
+      | _ => false
+      end.
+    Proof. reflexivity. Qed.
+
+    Lemma s1_invalid : obj_validb c s1 Mo = false.
+    Proof.
+      rewrite validb_unfold, (read_pinv _ _ s1_pinv). unfold oinv.
+      assert (C : In (dest, Dir) (children s1 Mo)).
+      { apply children_In; [|apply is_child_app]. rewrite <- (app_nil_r dest), s1_dest_sub, app_nil_r.
+        apply (Pts_l6 t1 _ _ J1). cbn. auto 10. }
+      match goal with |- _ && forallb ?f (children s1 Mo) && _ && _ = false =>
+        assert (F : forallb f (children s1 Mo) = false) end.
+      { match goal with |- ?X = false => destruct X eqn:F; [|reflexivity] end. rewrite forallb_forall in F. specialize (F _ C).
+        cbn in F. unfold dest in F. rewrite last_app_single in F. apply existsb_exists in F as [v [I E]].
+        apply seg_eqb_eq in E. subst. contradiction. }
+      rewrite F, andb_false_r. reflexivity.
+    Qed.
+
+    Lemma s2_invalid : obj_validb c s2 Mo = false.
+    Proof. rewrite validb_unfold. unfold s2. rewrite (read_pinv _ _ (lookup_insert_eq _ _ _)). reflexivity. Qed.
+
+    Lemma s3_invalid : obj_validb c s3 Mo = false.
+    Proof.
+      rewrite validb_unfold. unfold s3 at 1. rewrite (read_pinv _ _ (lookup_insert_eq _ _ _)).
+      unfold tok, tok_of.
+      assert (S : read_file s3 pside = Some (CSide k0)).
+      { apply read_pside. unfold s3, s2. rewrite !lookup_insert_neq by apply pinv_pside. rewrite s1_pside.
+        destruct valid0_parts as [-> _]. reflexivity. }
+      rewrite S. change (i_k i) with (c_newk c).
+      assert (N : N.eqb (c_newk c) k0 = false) by (apply N.eqb_neq; congruence).
+      rewrite N. reflexivity.
+    Qed.
+
+    Lemma s4_invalid : obj_validb c s4 Mo = false.
+    Proof.
+      rewrite validb_unfold.
+      assert (R : read_file s4 pinv = Some tok).
+      { apply read_pinv. unfold s4. rewrite lookup_insert_neq by (apply not_eq_sym, pinv_pside). apply lookup_insert_eq. }
+      rewrite R. unfold tok, tok_of. unfold s4. rewrite (read_pside _ _ (lookup_insert_eq _ _ _)). reflexivity.
+    Qed.
+
+    Lemma t1_OLD : OLD t1.
+    Proof. apply Base_OLD, (JP_Base _ _ J1). Qed.
+
+    Lemma s5_head_present : lookup s5 dest = Some Dir.
+    Proof.
+      unfold s5, s4, s3, s2. rewrite !lookup_insert_neq.
+      - rewrite <- (app_nil_r dest), s1_dest_sub, app_nil_r. apply (Pts_l6 t1 _ _ J1). cbn. auto 10.
+      - rewrite <- (app_nil_r dest). apply not_eq_sym, dest_sub_neq_pinv.
+      - rewrite <- (app_nil_r dest). apply not_eq_sym, dest_sub_neq_pinv.
+      - rewrite <- (app_nil_r dest). apply not_eq_sym, dest_sub_neq_pside.
+      - rewrite <- (app_nil_r dest). apply not_eq_sym, dest_sub_neq_pside.
+    Qed.
   End NewVersion.
+
+  (** ** after the installation: removal of the staged object and release of the lock *)
+  Lemma tail_preserves root tref :
+    under Mo root = true -> preserves (fun t => same_at root t tref) (finally (purge_staged c) (unlock c)).
+  Proof.
+    intros U. pose proof (stable_same_at root tref) as St.
+    assert (G : forall q, under root q = true -> under Mo q = true) by (intros q X; eapply under_trans; eauto).
+    apply pres_finally.
+    - apply (pres_purge_staged _ _ St).
+      + intros q X Y. fold So in X. specialize (G q Y). rewrite (under_So_not_Mo q X) in G. discriminate.
+      + intros q X Y. apply G in Y. fold So in X.
+        pose proof (under_trans _ _ _ Y (under_trans _ _ _ X (under_parent So))) as Z.
+        exact (eq_true_false_abs _ Z (ok_mo_so c CO)).
+    - unfold unlock. apply (pres_remove_file_inf _ _ St). intros X. apply G in X.
+      exact (eq_true_false_abs _ X (ok_mo_lock c CO)).
+  Qed.
+
+  Lemma unlock_preserves_Base : preserves Base (unlock c).
+  Proof.
+    unfold unlock. apply (pres_remove_file_inf _ _ stable_Base). fold (lockp c). fold L.
+    intros [X | [d [I E]]]; [apply X; now right | now apply (So_sub_neq_L d)].
+  Qed.
+
+  Lemma unlock_preserves_except_L tref : preserves (fun t => forall x, x <> L -> lookup t x = lookup tref x) (unlock c).
+  Proof.
+    unfold unlock. fold (lockp c). fold L.
+    apply (pres_remove_file_inf (fun t => forall x, x <> L -> lookup t x = lookup tref x) (fun p => p <> L)).
+    - intros t t' p H O B x Hx. rewrite O; [now apply H|]. intros ->. now apply B.
+    - intros X. now apply X.
+  Qed.
+
+  (** ** the run of commit, phase by phase *)
+  Definition w0 (j : inj) : world := init_world t0 j.
+
+  Lemma wfw_w0 j : wfw (w0 j).
+  Proof. intros X. discriminate. Qed.
+
+  Lemma AcqPre_t0 : AcqPre t0.
+  Proof. split; [apply AcqPost_t0 | apply (pre_lock_free c t0 i0 Pre)]. Qed.
+
+  Lemma finally_bind {A B} (m : M A) (f : A -> M B) fin w :
+    finally (bind m f) fin w =
+    match m w with
+    | (ROk a, w1) => finally (f a) fin w1
+    | (RErr e, w1) => (attempt fin ;; throw e) w1
+    | (RKilled, w1) => (RKilled, w1)
+    end.
+  Proof. unfold finally, catch, bind at 1 2. destruct (m w) as [[a|e|] w1]; reflexivity. Qed.
+
+  Lemma commit_unfold j :
+    commit c (w0 j) =
+    match acquire c (w0 j) with
+    | (ROk _, wa) =>
+      match prep c wa with
+      | (ROk i', w1) => finally (mid c i') (unlock c) w1
+      | (RErr e, w1) => (attempt (unlock c) ;; throw e) w1
+      | (RKilled, w1) => (RKilled, w1)
+      end
+    | (RErr e, wa) => (RErr e, wa)
+    | (RKilled, wa) => (RKilled, wa)
+    end.
+  Proof.
+    unfold commit, with_lock, andthen. unfold bind at 1. unfold ensure_open, bind at 1, get_closed. cbn [w0 init_world w_closed ret].
+    unfold bind at 1. destruct (acquire c (w0 j)) as [[a|e|] wa]; try reflexivity.
+    unfold commit_inner. apply finally_bind.
+  Qed.
+
+  Lemma mid_unfold i' w1 :
+    finally (mid c i') (unlock c) w1 =
+    if w_closed w1 then (attempt (unlock c) ;; ret tt) w1
+    else match install c i' w1 with
+         | (ROk _, w2) => finally (purge_staged c) (unlock c) w2
+         | (RErr e, w2) => (attempt (unlock c) ;; throw e) w2
+         | (RKilled, w2) => (RKilled, w2)
+         end.
+  Proof.
+    unfold mid. destruct (w_closed w1) eqn:C.
+    - unfold finally, catch, bind at 1 2, get_closed. rewrite C. cbn [ret].
+      unfold andthen, bind, attempt, catch, ret. unfold bind. destruct (unlock c w1) as [[a|e|] w2]; reflexivity.
+    - transitivity (finally (install c i' ;; purge_staged c) (unlock c) w1).
+      + unfold finally, catch, bind at 1 2, get_closed. rewrite C. reflexivity.
+      + apply finally_bind.
+  Qed.
+
+  (** the outcome of `attempt fin ;; k` for k = throw e / ret tt: fin's effect on the tree, the result of k or a kill *)
+  Lemma attempt_then_tree {A B} (P : tree -> Prop) (fin : M A) (k : M B) w :
+    preserves P fin -> preserves P k -> P (w_tree w) -> P (w_tree (snd ((attempt fin ;; k) w))).
+  Proof. intros Hf Hk. apply pres_andthen; [now apply pres_attempt | exact Hk]. Qed.
+
+  Lemma attempt_throw_res {A} (fin : M A) e w :
+    fst ((attempt fin ;; @throw unit e) w) = RErr e \/ fst ((attempt fin ;; @throw unit e) w) = RKilled.
+  Proof.
+    unfold andthen, bind, attempt, catch, ret. unfold bind. destruct (fin w) as [[a|e'|] w1]; cbn; auto.
+  Qed.
+
+  Lemma attempt_ret_res {A} (fin : M A) w :
+    fst ((attempt fin ;; ret tt) w) = ROk tt \/ fst ((attempt fin ;; ret tt) w) = RKilled.
+  Proof.
+    unfold andthen, bind, attempt, catch, ret. unfold bind. destruct (fin w) as [[a|e'|] w1]; cbn; auto.
+  Qed.
+
+  Definition is_ok {A} (r : out A) : bool := match r with ROk _ => true | _ => false end.
+
+  (** the first two phases: Ok with the prepared tree, or the base invariant *)
+  Lemma phase_acquire_prep j :
+    match acquire c (w0 j) with
+    | (ROk _, wa) =>
+      wfw wa /\
+      match prep c wa with
+      | (ROk i', w1) => i' = i /\ JP l6 (w_tree w1) /\ wfw w1
+      | (_, w1) => Base (w_tree w1)
+      end
+    | (_, wa) => Base (w_tree wa)
+    end.
+  Proof.
+    pose proof (H_acquire (w0 j) (wfw_w0 j) AcqPre_t0) as HA.
+    destruct (acquire c (w0 j)) as [[a|e|] wa]; cbn [fst snd] in HA; destruct HA as (Wa & _ & Ra).
+    - split; [exact Wa|]. pose proof (H_prep wa Wa Ra) as HP.
+      destruct (prep c wa) as [[i'|e|] w1]; cbn [fst snd] in HP; destruct HP as (W1 & _ & R1).
+      + destruct R1 as [-> J]. auto.
+      + apply R1.
+      + apply R1.
+    - destruct Ra as [Ra _]. intros. split; [intros x NI; apply Ra; intros ->; apply NI; now right|].
+      intros d _. apply Ra, So_sub_neq_L.
+    - destruct Ra as [Ra _]. split; [intros x NI; apply Ra; intros ->; apply NI; now right|].
+      intros d _. apply Ra, So_sub_neq_L.
+  Qed.
+End Commit.
